@@ -1,4 +1,5 @@
 import Qx.Proofs.Xml
+import Qx.Generated.NsConstants
 /-!
 C01, tier A (XML text layer): property theorems.
 
@@ -66,57 +67,52 @@ example : escText "a&#60;&".toList = "a".toList ++ '&' :: "amp;#60;&amp;".toList
 
 /-! ## the written document parses back to the tree that was written -/
 
-/-- What the parser returns for a written tree, for ALL text and attribute-value strings:
-`view t`, i.e. `t` with the characters the writer drops removed, adjacent text merged and blank
-text runs gone (`view` does not look at anything else).  `NamesOK` constrains only names;
-`NsValuesOK` constrains only the values of `xmlns`/`xmlns:p` declarations, which Qt writes
-unescaped (see `C01_defect_xmlns_injection`). -/
+/-- What the parser returns for a written tree, for ALL text and attribute-value strings
+(namespace URIs included): `view t`, i.e. `t` with the characters the writer drops removed, adjacent
+text merged and blank text runs gone (`view` does not look at anything else).  `NamesOK`
+constrains only names. -/
 theorem parse_render_view (n : Str) (as : List (Str × Str)) (ks : List Node)
-    (h : NamesOK (.elem n as ks)) (hns : NsValuesOK (.elem n as ks)) :
+    (h : NamesOK (.elem n as ks)) :
     parse (render (.elem n as ks)) = some (view (.elem n as ks)) :=
-  Qx.Xml.parse_render_view n as ks h hns
+  Qx.Xml.parse_render_view n as ks h
 
-/-- No field value can alter the element structure: whatever strings sit in attribute values and
-text nodes (metacharacters only, `]]>`, quotes, `&#60;`, `</x>` …), the written document parses,
-and the parsed tree has exactly the elements, attribute names and nesting of the tree that was
-written (`skeleton` erases text nodes and attribute values and keeps everything else).
-PARTIAL with respect to the property text: holds for every text and every ordinary attribute value,
-but needs `NsValuesOK` for namespace URIs; the statement without it is refuted below. -/
-theorem render_skeleton_indep_partial (n : Str) (as : List (Str × Str)) (ks : List Node)
-    (h : NamesOK (.elem n as ks)) (hns : NsValuesOK (.elem n as ks)) :
+/-- No field value can alter the element structure: whatever strings sit in attribute values
+(`xmlns` included) and text nodes (metacharacters only, `]]>`, quotes, `&#60;`, `</x>` …), the written
+document parses, and the parsed tree has exactly the elements, attribute names and nesting of the
+tree that was written (`skeleton` erases text nodes and attribute values and keeps everything else). -/
+theorem render_skeleton_indep (n : Str) (as : List (Str × Str)) (ks : List Node)
+    (h : NamesOK (.elem n as ks)) :
     (parse (render (.elem n as ks))).map skeleton = some (skeleton (.elem n as ks)) := by
-  rw [parse_render_view n as ks h hns, Option.map_some, skeleton_view]
-
-/-- DEFECT (today's code): the full statement "for all payloads, names being names, the written
-document has the element structure of the tree" is false, because `writeDefaultNamespace` does not
-escape.  Witness: `<a><x xmlns=V/></a>` with `V = u"><evil/></x><x xmlns="u` is written as
-`<a><x xmlns="u"><evil/></x><x xmlns="u"/></a>` — an `evil` element and a second `x` appear.
-The harness replays this on `QXmppElement::toXml` and the Jingle content writer. -/
-theorem C01_defect_xmlns_injection :
-    ¬ ∀ (n : Str) (as : List (Str × Str)) (ks : List Node), NamesOK (.elem n as ks) →
-      (parse (render (.elem n as ks))).map skeleton = some (skeleton (.elem n as ks)) := by
-  intro h
-  have := h "a".toList [] [.elem "x".toList [("xmlns".toList, "u\"><evil/></x><x xmlns=\"u".toList)] []] (by decide)
-  revert this
-  decide +kernel
+  rw [parse_render_view n as ks h, Option.map_some, skeleton_view]
 
 /-- Consequence: two trees that differ only in their string payloads are written to documents
-with the same element structure.  PARTIAL for the same reason (`NsValuesOK`). -/
-theorem payload_cannot_change_structure_partial (t u : Node) (ht : NamesOK t) (hu : NamesOK u)
-    (nt : NsValuesOK t) (nu : NsValuesOK u)
+with the same element structure. -/
+theorem payload_cannot_change_structure (t u : Node) (ht : NamesOK t) (hu : NamesOK u)
     (n : Str) (as : List (Str × Str)) (ks : List Node) (et : t = .elem n as ks)
     (n' : Str) (as' : List (Str × Str)) (ks' : List Node) (eu : u = .elem n' as' ks')
     (same : skeleton t = skeleton u) :
     (parse (render t)).map skeleton = (parse (render u)).map skeleton := by
   subst et eu
-  rw [render_skeleton_indep_partial n as ks ht nt, render_skeleton_indep_partial n' as' ks' hu nu, same]
+  rw [render_skeleton_indep n as ks ht, render_skeleton_indep n' as' ks' hu, same]
 
 /-- The `shape` form (text nodes kept as empty place-holders): the shape of the parsed document is
 the shape of the written tree as an XML parser sees it (`view`: adjacent text merged, blank text dropped). -/
-theorem render_shape_indep_partial (n : Str) (as : List (Str × Str)) (ks : List Node)
-    (h : NamesOK (.elem n as ks)) (hns : NsValuesOK (.elem n as ks)) :
+theorem render_shape_indep (n : Str) (as : List (Str × Str)) (ks : List Node)
+    (h : NamesOK (.elem n as ks)) :
     (parse (render (.elem n as ks))).map shape = some (shape (view (.elem n as ks))) := by
-  rw [parse_render_view n as ks h hns, Option.map_some]
+  rw [parse_render_view n as ks h, Option.map_some]
+
+/-- The one place where the writer does NOT escape: Qt writes the argument of
+`writeDefaultNamespace` / `writeNamespace` verbatim.  qxmpp passes only compile-time constants there
+(checked on every run by translators/ns_constants.py, which regenerates `Qx.Generated.Ns` and fails
+on any other argument); for each of them verbatim output and the model's escaped output are the
+same bytes. -/
+theorem ns_constants_ok : ∀ v ∈ Qx.Generated.Ns.allNamespaces, escAttr v.toList = v.toList := by
+  have h : Qx.Generated.Ns.allNamespaces.all (fun v => v.toList.all plainAttrChar) = true := by decide +kernel
+  intro v hv
+  exact escAttr_plain _ (List.all_eq_true.mp (List.all_eq_true.mp h v hv))
+
+example : Qx.Generated.Ns.allNamespaces.length > 100 ∧ "jabber:client" ∈ Qx.Generated.Ns.allNamespaces := by decide +kernel
 
 /-- `view` spelled out with the shared `normalize` of Qx/Xml/Canon.lean: remove the characters the
 writer drops (`legalize`), merge adjacent text and drop empty text (`normalize`), drop the text
@@ -124,26 +120,23 @@ runs that are blank (`dropBlank`, QDom's white-space rule). -/
 theorem view_eq_normalize (t : Node) : view t = dropBlank (normalize (legalize t)) := view_eq t
 
 /-- Text layer half of "serialize-then-parse is the identity", at character level: a tree whose
-names are names, whose characters are all XML-legal, whose namespace URIs contain none of `" < &`,
-whose text nodes are non-blank and never adjacent is read back exactly.  (The namespace-URI clause
-of `WellFormed` exists only because of `C01_defect_xmlns_injection`; CR/LF/TAB need no exclusion:
-Qt 5.15's QDom keeps them, measured by the harness.) -/
+names are names, whose characters are all XML-legal, whose text nodes are non-blank and never adjacent is read back
+exactly.  (CR/LF/TAB need no exclusion: Qt 5.15's QDom keeps them, measured by the harness.) -/
 theorem parse_render (n : Str) (as : List (Str × Str)) (ks : List Node)
     (h : WellFormed (.elem n as ks)) :
     parse (render (.elem n as ks)) = some (.elem n as ks) := by
-  rw [parse_render_view n as ks (namesOK_of_wellFormed _ h) (nsValuesOK_of_wellFormed _ h), view_of_wellFormed _ h]
+  rw [parse_render_view n as ks (namesOK_of_wellFormed _ h), view_of_wellFormed _ h]
 
 /-! ## non-vacuity -/
 
 /-- a tree whose payloads are nothing but markup -/
 def evil : Node :=
-  .elem "a".toList [("k".toList, "\"><x y=\"".toList), ("xmlns".toList, "'/>]]>--".toList)]
+  .elem "a".toList [("k".toList, "\"><x y=\"".toList), ("xmlns".toList, "u\"><evil/></a><a xmlns=\"u".toList)]
     [.text "</a><b>".toList, .text "]]>&#60;<![CDATA[".toList,
      .elem "stream:b".toList [("q".toList, "&\"'<>&amp;".toList)] [.text "<".toList, .text ">".toList],
      .text "\"".toList, .elem "c".toList [] [.text " \r\n\t".toList]]
 
 example : NamesOK evil := by decide
-example : NsValuesOK evil := by decide
 example : ¬ WellFormed evil := by decide
 example : (parse (render evil)).map skeleton = some (skeleton evil) := by decide +kernel
 example : parse (render evil) = some (view evil) := by decide +kernel
